@@ -77,4 +77,3 @@ func probeMain(fs *flag.FlagSet, args []string) error {
 	return nil
 }
 
-func crossMain(fs *flag.FlagSet, args []string) error { return fmt.Errorf("todo") }
